@@ -58,18 +58,20 @@ FIELD = [
             reveal_strlit("");
             let acr0 = self.uppercase_acronyms@;
             // the text before the name is whatever the literal says (incidental); name, marker, type and struct tag are C04's business
-            let pre = comments_text(1, field.comments@) + wfmt_write_field_1_p0();
+            let pre = comments_text(1, field.comments@) + wfmt_write_field_2_p0();
             let post = "\\n"@;
             let nm = go_field_name(acr0, field.id.original@, true);
             let star = mark(field.has_default && !is_opt(field.ty), "*"@);
             let osym = mark(optional(*field), ",omitempty"@);
             let m = member(Lang::Go, nm, go_acr(acr0, type_name@), *field);
             let tag = go_tag(unquote(debug_str(field.id.renamed@)), *field);
-            let a = w0 + comments_text(1, field.comments@) + wfmt_write_field_1_p0() + nm + " "@ + star + go_type@;
+            let a = w0 + comments_text(1, field.comments@) + wfmt_write_field_2_p0() + nm + " "@ + star + go_type@;
             assert(a =~= w0 + pre + m);
             let b = a + " `json:\\""@ + renamed_id@ + osym + "\\"`"@;
             assert(b =~= a + tag);
             assert(w@ == b + "\\n"@);
+            // the override case: `*` override for an Option<T> field (literal of the format! site)
+            fmt_write_field_0_p0_chars(); fmt_write_field_0_p1_chars(); reveal_strlit("*");
             assert(wit3(pre, type_name@, post));
             assert(w@ =~= w0 + pre + m + tag + post);
         }
